@@ -133,7 +133,10 @@ def render(body, kind, ind):
 RET_ANNS = {
     'gen': ['Generator[object, object, object]', 'Iterator[object]', 'Iterable[object]', 'Generator[int, None, str]', None],
     'agen': ['AsyncGenerator[object, object]', 'AsyncIterator[object]', 'AsyncIterable[object]', 'AsyncGenerator[int, None]', None],
-    'coro': ['object', 'int', 'str', 'Optional[int]', 'Union[int, str, float, None]', None],
+    # NoReturn / Never: the coroutine conforms only by raising or never finishing; Coroutine[...]: the hint of the coroutine
+    # object spelt out (beartype reduces it to its return child)
+    'coro': ['object', 'int', 'str', 'Optional[int]', 'Union[int, str, float, None]', None, 'NoReturn', 'Never',
+             'Coroutine[object, object, int]', 'Coroutine[object, object, NoReturn]', 'Awaitable[int]'],
 }
 
 
@@ -258,7 +261,8 @@ def _namespace():
     import asyncio
     import typing
     ns = {'MyBase': MyBase, 'CancelledError': asyncio.CancelledError}
-    for n in ('Generator', 'Iterator', 'Iterable', 'AsyncGenerator', 'AsyncIterator', 'AsyncIterable', 'Optional', 'Union'):
+    for n in ('Generator', 'Iterator', 'Iterable', 'AsyncGenerator', 'AsyncIterator', 'AsyncIterable', 'Optional', 'Union', 'NoReturn',
+              'Never', 'Coroutine', 'Awaitable'):
         ns[n] = getattr(typing, n)
     return ns
 
@@ -557,6 +561,12 @@ def _conforms_ret(ann, v):
         return v is None or isinstance(v, int)
     if ann == 'Union[int, str, float, None]':
         return v is None or isinstance(v, (int, str, float))
+    if ann in ('NoReturn', 'Never', 'Coroutine[object, object, NoReturn]', 'Awaitable[int]'):
+        # (Awaitable[...] on an async def is not reduced to its child: the awaited result itself must be awaitable, which no
+        # generated value is)
+        return False
+    if ann == 'Coroutine[object, object, int]':
+        return isinstance(v, int)
     return True
 
 
